@@ -49,13 +49,19 @@ struct Succ<S> {
     parent: u32,
     ev: u16,
     key: String,
-    state: S,
+    /// `None` for a new state of the last level (it is counted, never expanded, so only its key is kept)
+    state: Option<S>,
 }
 
 struct Acc<S> {
     /// successors with a new key that could not be kept (memory cap of the level)
     dropped: u64,
     fresh: Vec<Succ<S>>,
+    /// keys this worker already holds in `fresh` (chunks are handed out in ascending order, so the
+    /// entry kept is the worker's smallest (parent, event); the barrier picks the smallest overall)
+    local_keys: std::collections::HashSet<String>,
+    /// duplicates of a key that is new in this level (audited after the barrier)
+    level_dups: Vec<Succ<S>>,
     merged: Vec<Succ<S>>,
     transitions: u64,
     merged_count: u64,
@@ -85,7 +91,8 @@ impl<'a, S: Clone + Send + Sync> Bfs<'a, S> {
                 break;
             }
             // invariants are still checked on every transition; only the storage of new states is capped
-            let fresh_cap_per_worker = (self.state_cap * 2) / self.threads.max(1) + 1;
+            let last_level = depth + 1 == self.max_depth;
+            let fresh_cap_per_worker = if last_level { usize::MAX } else { self.state_cap / 4 + 1 };
             let audit_room = self.audit_cap.saturating_sub(audit_pool.len());
             let per_worker_audit = audit_room / self.threads.max(1) + 1;
             let res = par_for(
@@ -96,6 +103,8 @@ impl<'a, S: Clone + Send + Sync> Bfs<'a, S> {
                 |_| Acc {
                     dropped: 0,
                     fresh: Vec::new(),
+                    local_keys: std::collections::HashSet::new(),
+                    level_dups: Vec::new(),
                     merged: Vec::new(),
                     transitions: 0,
                     merged_count: 0,
@@ -108,18 +117,27 @@ impl<'a, S: Clone + Send + Sync> Bfs<'a, S> {
                         (self.check)(state, hist, ev, succ.as_ref());
                         if let Some(s) = succ {
                             let key = (self.key)(&s);
-                            let rec = Succ {
+                            let mut rec = Succ {
                                 parent: i as u32,
                                 ev: ev as u16,
                                 key,
-                                state: s,
+                                state: Some(s),
                             };
                             if seen.contains_key(&rec.key) {
                                 acc.merged_count += 1;
                                 if acc.merged.len() < per_worker_audit {
                                     acc.merged.push(rec);
                                 }
+                            } else if acc.local_keys.contains(&rec.key) {
+                                acc.merged_count += 1;
+                                if acc.level_dups.len() < per_worker_audit {
+                                    acc.level_dups.push(rec);
+                                }
                             } else if acc.fresh.len() < fresh_cap_per_worker {
+                                acc.local_keys.insert(rec.key.clone());
+                                if last_level {
+                                    rec.state = None;
+                                }
                                 acc.fresh.push(rec);
                             } else {
                                 acc.dropped += 1;
@@ -129,15 +147,19 @@ impl<'a, S: Clone + Send + Sync> Bfs<'a, S> {
                 },
             );
             let mut fresh: Vec<Succ<S>> = Vec::new();
+            let mut level_dups: Vec<Succ<S>> = Vec::new();
             let mut dropped = 0u64;
             for mut a in res.accs {
                 dropped += a.dropped;
+                level_dups.append(&mut a.level_dups);
                 stats.transitions += a.transitions;
                 stats.merged += a.merged_count;
                 for m in a.merged.drain(..) {
                     if audit_pool.len() < self.audit_cap {
                         let rep = seen[&m.key].clone();
-                        audit_pool.push((m.state, rep));
+                        if let Some(st) = m.state {
+                            audit_pool.push((st, rep));
+                        }
                     }
                 }
                 fresh.append(&mut a.fresh);
@@ -162,26 +184,46 @@ impl<'a, S: Clone + Send + Sync> Bfs<'a, S> {
             stats.complete_depth = depth + 1;
             fresh.sort_by_key(|s| (s.parent, s.ev));
             let mut next: Vec<(S, Vec<u16>)> = Vec::new();
+            let mut new_states = 0u64;
+            let mut leaf_samples: Vec<Vec<u16>> = Vec::new();
             for s in fresh {
                 if let Some(rep) = seen.get(&s.key) {
                     stats.merged += 1;
-                    if audit_pool.len() < self.audit_cap {
-                        audit_pool.push((s.state, rep.clone()));
+                    if let (true, Some(st)) = (audit_pool.len() < self.audit_cap, s.state) {
+                        audit_pool.push((st, rep.clone()));
                     }
                     continue;
                 }
                 let mut h = frontier[s.parent as usize].1.clone();
                 h.push(s.ev);
-                seen.insert(s.key, h.clone());
-                next.push((s.state, h));
-            }
-            stats.states += next.len() as u64;
-            stats.states_per_depth.push(next.len() as u64);
-            if depth + 1 == self.max_depth {
-                // leaves: counted as states, not expanded
-                for (_, h) in next.iter().take(4) {
-                    stats.sample_histories.push(h.clone());
+                new_states += 1;
+                match s.state {
+                    Some(st) => {
+                        seen.insert(s.key, h.clone());
+                        next.push((st, h));
+                    }
+                    None => {
+                        if leaf_samples.len() < 4 {
+                            leaf_samples.push(h.clone());
+                        }
+                        seen.insert(s.key, h);
+                    }
                 }
+            }
+            // duplicates inside the level: audited against the representative chosen at the barrier
+            for m in level_dups {
+                if audit_pool.len() >= self.audit_cap {
+                    break;
+                }
+                if let (Some(rep), Some(st)) = (seen.get(&m.key), m.state) {
+                    audit_pool.push((st, rep.clone()));
+                }
+            }
+            stats.states += new_states;
+            stats.states_per_depth.push(new_states);
+            if last_level {
+                // leaves: counted as states, not expanded
+                stats.sample_histories.extend(leaf_samples);
                 frontier = Vec::new();
                 break;
             }
